@@ -11,7 +11,7 @@ import (
 )
 
 // C12 — behaviour is immune to caller-side mutation and to request history.
-// Stateless enumeration of operation sequences on three middlewares alive at once; after every step every
+// Stateless enumeration of operation sequences on five middlewares alive at once; after every step every
 // middleware must answer a fixed probe suite exactly as before any adversarial activity, canary-free.
 
 const canary = "CANARY-c12"
@@ -23,6 +23,8 @@ type c12Case struct {
 var (
 	c12A = CfgLit{Origins: []string{"https://a.example", "https://*.a.example:*"}, Methods: []string{"PUT", "PATCH"}, RequestHeaders: []string{"X-A", "X-B"}, ResponseHeaders: []string{"X-R", "X-S"}, MaxAge: 30}
 	c12B = CfgLit{Origins: []string{"*"}, Methods: []string{"*"}, RequestHeaders: []string{"*", "Authorization"}, ResponseHeaders: []string{"*"}, MaxAge: -1, Status: 200}
+	c12D = CfgLit{Origins: []string{"https://e.example"}, Credentialed: true, Methods: []string{"*"}, RequestHeaders: []string{"*", "Authorization"}, MaxAge: -1}
+	c12E = CfgLit{Origins: []string{"*"}, Methods: []string{"*"}, RequestHeaders: []string{"*"}, ResponseHeaders: []string{"*"}}
 	c12C = CfgLit{Origins: []string{"http://c.example:8080", "https://d.example"}, Credentialed: true, TolInsecure: true, Methods: []string{"PUT", "DELETE"}, RequestHeaders: []string{"X-A", "X-C"}, ResponseHeaders: []string{"X-T"}, PNA: true}
 )
 
@@ -87,6 +89,7 @@ func c12Probes() []vlib.Req {
 		vlib.Req{Method: "OPTIONS", Hdr: map[string][]string{"Origin": {"https://a.example"}, "Access-Control-Request-Method": {"EVIL"}}},
 		vlib.Req{Method: "OPTIONS", Hdr: map[string][]string{"Origin": {"https://a.example"}, "Access-Control-Request-Method": {"PUT"}, "Access-Control-Request-Headers": {"x-evil"}}},
 		vlib.Req{Method: "OPTIONS", Hdr: map[string][]string{"Origin": {"https://d.example"}, "Access-Control-Request-Method": {"EVIL"}, "Access-Control-Request-Headers": {"x-evil"}}},
+		vlib.Req{Method: "OPTIONS", Hdr: map[string][]string{"Origin": {"https://e.example"}, "Access-Control-Request-Method": {"PURGE"}, "Access-Control-Request-Headers": {"authorization,x-q"}}},
 	)
 	// variations of every served request: the same request with one more (disallowed) ACRH field line, with the
 	// first line kept and a disallowed second one, with a near-miss origin / method, and with ACRPN toggled
@@ -126,16 +129,18 @@ func c12Probes() []vlib.Req {
 	return p
 }
 
+const c12N = 5
+
 type c12World struct {
-	m      [3]*cors.Middleware
-	inputs [3]cors.Config // the values passed to NewMiddleware (slices shared with the caller)
-	lits   [3]CfgLit
+	m      [c12N]*cors.Middleware
+	inputs [c12N]cors.Config // the values passed to NewMiddleware (slices shared with the caller)
+	lits   [c12N]CfgLit
 }
 
 func c12NewWorld() (*c12World, error) {
 	w := &c12World{}
-	w.lits = [3]CfgLit{c12A, c12B, c12C}
-	for i := 0; i < 2; i++ {
+	w.lits = [c12N]CfgLit{c12A, c12B, c12C, c12D, c12E}
+	for _, i := range []int{0, 1, 3, 4} {
 		w.inputs[i] = w.lits[i].Config()
 		m, err := cors.NewMiddleware(w.inputs[i])
 		if err != nil {
@@ -176,7 +181,7 @@ func (scribbler) ServeHTTP(w http.ResponseWriter, r *http.Request) {
 
 func c12Ops() []string {
 	var ops []string
-	for mi := 0; mi < 3; mi++ {
+	for mi := 0; mi < c12N; mi++ {
 		for ri := range c12Requests() {
 			for _, h := range []string{"noop", "scribble", "scribble-preset"} {
 				ops = append(ops, fmt.Sprintf("serve:m%d:r%d:%s", mi, ri, h))
@@ -191,7 +196,7 @@ func c12Ops() []string {
 // of two request kinds), used for the longest histories.
 func c12ReducedOps(thorough bool) []string {
 	var ops []string
-	for mi := 0; mi < 3; mi++ {
+	for mi := 0; mi < c12N; mi++ {
 		ops = append(ops, fmt.Sprintf("serve:m%d:r2:scribble", mi), fmt.Sprintf("serve:m%d:r1:scribble", mi),
 			fmt.Sprintf("scribble-input:m%d", mi), fmt.Sprintf("config-scribble:m%d", mi), fmt.Sprintf("reconfigure-scribble:m%d", mi))
 		if thorough {
@@ -253,7 +258,7 @@ var (
 func c12Baseline() ([]string, error) {
 	c12PristineOnce.Do(func() {
 		probes := c12Probes()
-		for mi := 0; mi < 3; mi++ {
+		for mi := 0; mi < c12N; mi++ {
 			for _, p := range probes {
 				w, err := c12NewWorld()
 				if err != nil {
@@ -311,7 +316,7 @@ func c12Test(k c12Case) string {
 
 func checkC12(c *vlib.Ctx) (string, string) {
 	ck := &Checker[c12Case]{C: c, Judge: c12Judge, Test: c12Test}
-	rule := "all operation sequences up to the stated lengths (no deduplication: the invariant is that observations never change) over: serve one of 8 requests on one of 3 live middlewares with a no-op or an in-place header-scribbling handler; scribble the Config passed in; scribble Config()'s result; Reconfigure then scribble the argument; after every step all middlewares answer a fixed probe suite exactly as at the start, canary-free; non-trivial = distinct history containing at least one adversarial operation"
+	rule := "all operation sequences up to the stated lengths (no deduplication: the invariant is that observations never change) over: serve one of 8 requests on one of 5 live middlewares with a no-op or an in-place header-scribbling handler; scribble the Config passed in; scribble Config()'s result; Reconfigure then scribble the argument; after every step all middlewares answer a fixed probe suite exactly as at the start, canary-free; non-trivial = distinct history containing at least one adversarial operation"
 	if ck.Replay() {
 		return levelMC, rule
 	}
@@ -320,10 +325,10 @@ func checkC12(c *vlib.Ctx) (string, string) {
 		ops []string
 		n   int
 	}
-	passes := vlib.Pick(c, []pass{{red, 3}}, []pass{{full, 3}, {red, 5}})
+	passes := vlib.Pick(c, []pass{{full, 2}, {red, 3}}, []pass{{full, 3}, {red, 4}})
 	// Pass 0 is sequential and in simplest-first order: a history that corrupts process-global state (e.g. a
 	// shared singleton slice) is then blamed itself, instead of whichever history happens to run next.
-	w0 := vlib.NewWords(full, 2)
+	w0 := vlib.NewWords(full, 1)
 	for i := int64(1); i < w0.Count() && !c.Stopped(); i++ {
 		var tmp [8]int
 		k := c12Case{}
